@@ -251,50 +251,66 @@ def _last_bytes(ctx):
 
 
 def _checksum(ctx):
+    """The file object is scripted: read() returns chunk0..chunk(n-1) and
+    then b''.  Whatever the loop looks like, the digest must be updated with
+    exactly those chunks, in order, and the digest created by
+    hashlib.new(algorithm) must be the one finalised."""
     rep, world = ctx.report, ctx.world
     f = world.func(MOD, 'compute_file_checksum')
     rep.analysed('fileutils.compute_file_checksum')
     size, algo = T('sym', 'read_chunksize'), T('sym', 'algorithm')
+    for n in (0, 1, 2, 3, 5):
+        st = {}
 
-    def thunk(interp):
-        return interp.call(f, [T('sym', 'path'), size, algo])
+        def hook(interp, name, fv, args, kwargs):
+            if name == '.read':
+                k = st.get('k', 0)
+                st['k'] = k + 1
+                interp.effect('call', '.read', tuple(interp.termify(a)
+                                                     for a in args))
+                if k >= n:
+                    return K(b'')
+                c = T('sym', 'chunk%d' % k)
+                interp.types[c] = 'bytes'
+                return c
+            return NotImplemented
 
-    def setup(interp):
-        interp.world.sym_iter_max = 3
+        def thunk(interp):
+            st.clear()
+            return interp.call(f, [T('sym', 'path'), size, algo])
 
-    try:
-        outcomes, _i = extract(world, thunk, setup=setup)
-    finally:
-        world.sym_iter_max = 2
-    for o in outcomes:
-        n = None
-        it = None
-        for t, b in o.assumptions:
-            if isinstance(t, T) and t.op == 'len':
-                n, it = b, t.args[0]
-        label = '%s chunks' % n
+        def setup(interp):
+            interp.on_call = hook
+            interp.concrete_iter2 = True
+            interp.decide = lambda i, t: _chunk_truth(t)
+        old = world.loop_bound
+        world.loop_bound = 10
+        try:
+            outcomes, _i = extract(world, thunk, setup=setup)
+        finally:
+            world.loop_bound = old
+        label = '%d chunks' % n
         key = 'compute_file_checksum'
-        if o.kind != 'return' or it is None:
-            rep.check('R20.2', key, o.kind == 'return' and it is not None,
-                      'unexpected path %s %s' % (o.brief(), o.notes))
+        notes = inexact_notes(outcomes)
+        if notes or len(outcomes) != 1 or outcomes[0].kind != 'return':
+            rep.undecided('R20.2', key, '%s: %d paths %s %s' % (
+                label, len(outcomes), notes, [o.brief()[:60]
+                                              for o in outcomes][:2]))
             continue
-        # source of the chunks
-        ok_src = it.op == 'iter2' and it.args[1] == K(b'') and \
-            isinstance(it.args[0], T) and it.args[0].op == 'ret' and \
-            it.args[0].args[0] == '.read' and \
-            it.args[0].args[-1] == size
-        rep.check('R20.2', key + ':source', ok_src,
-                  'chunks come from iter(lambda: f.read(read_chunksize), '
-                  "b''); found %s" % show(it))
+        o = outcomes[0]
+        reads = o.calls('.read')
+        rep.check('R20.2', key + ':source[%s]' % label,
+                  len(reads) == n + 1 and all(r[2][-1] == size
+                                              for r in reads),
+                  'the file is read with read(read_chunksize) until the '
+                  'empty result (%d reads: %s)' % (
+                      len(reads), [show(T('a', *r[2][1:])) for r in reads]))
         news = o.calls('hashlib.new')
-        ok_new = len(news) == 1 and news[0][2] == (algo,)
-        rep.check('R20.2', key + ':digest-object', ok_new,
+        rep.check('R20.2', key + ':digest-object[%s]' % label,
+                  len(news) == 1 and news[0][2] == (algo,),
                   'one hashlib.new(algorithm) call')
-        digest = None
-        for e in o.effects:
-            pass
         updates = o.calls('.update')
-        want = [T('elem', it, K(i)) for i in range(n)]
+        want = [T('sym', 'chunk%d' % i) for i in range(n)]
         got = [u[2][1] if len(u[2]) == 2 else None for u in updates]
         rep.check('R20.2', key + ':update[%s]' % label, got == want,
                   'with %s the digest is updated with exactly those chunks '
@@ -312,9 +328,19 @@ def _checksum(ctx):
                   'updated in the loop is returned; found %s' % show(v))
         rep.case({'case': label, 'updates': [show(g) for g in got]},
                  ('checksum', n))
-        if n == 3:
-            # bound of the symbolic unrolling: not an inexactness of the rule
-            pass
+
+
+def _chunk_truth(t):
+    """chunk symbols are non-empty byte strings."""
+    if isinstance(t, T) and t.op == 'sym' and \
+            str(t.args[0]).startswith('chunk'):
+        return True
+    if isinstance(t, T) and t.op == 'cmp' and t.args[0] == '==' and \
+            isinstance(t.args[1], T) and t.args[1].op == 'sym' and \
+            str(t.args[1].args[0]).startswith('chunk') and \
+            t.args[2] == K(b''):
+        return False
+    return None
 
 
 def _tempfile(ctx):
